@@ -13,6 +13,7 @@
   * `safe_sub`                  = truncated subtraction  (never aborts)
 -/
 import MxModel.Gen.KMath
+import MxModel.Lemmas.KTactic
 
 namespace Mx.KMath
 open Mx Mx.Gen
@@ -24,21 +25,8 @@ theorem linear_interpolation_eq (minIn maxIn curIn minOut maxOut : Nat) :
     KMath.linear_interpolation minIn maxIn curIn minOut maxOut =
       if curIn < minIn ∨ maxIn < curIn ∨ maxIn = minIn then none
       else some (linInterp minIn maxIn curIn minOut maxOut) := by
-  by_cases h1 : curIn < minIn ∨ maxIn < curIn
-  · have h : curIn < minIn ∨ maxIn < curIn ∨ maxIn = minIn := by omega
-    simp only [KMath.linear_interpolation, gt_iff_lt, if_pos h1, if_pos h]
-  · have a1 : curIn ≤ maxIn := by omega
-    have a2 : minIn ≤ curIn := by omega
-    have a3 : minIn ≤ maxIn := by omega
-    by_cases h2 : maxIn = minIn
-    · have h : curIn < minIn ∨ maxIn < curIn ∨ maxIn = minIn := by omega
-      have a4 : maxIn - minIn = 0 := by omega
-      simp only [KMath.linear_interpolation, sub?, div?, gt_iff_lt, if_neg h1, if_pos h, if_pos a1,
-        if_pos a2, if_pos a3, if_pos a4, Option.bind_eq_bind, Option.bind_some]
-    · have h : ¬ (curIn < minIn ∨ maxIn < curIn ∨ maxIn = minIn) := by omega
-      have a4 : ¬ maxIn - minIn = 0 := by omega
-      simp only [KMath.linear_interpolation, sub?, div?, linInterp, gt_iff_lt, if_neg h1, if_neg h,
-        if_pos a1, if_pos a2, if_pos a3, if_neg a4, Option.bind_eq_bind, Option.bind_some]
+  k_defs [KMath.linear_interpolation, linInterp]
+  k_solve
 
 /-- inside a proper interval the source returns the model's interpolation -/
 theorem linear_interpolation_some (minIn maxIn curIn minOut maxOut : Nat)
@@ -57,31 +45,21 @@ theorem linear_interpolation_out_of_range (minIn maxIn curIn minOut maxOut : Nat
 theorem weighted_average_eq (v1 w1 v2 w2 : Nat) :
     KMath.weighted_average v1 w1 v2 w2 =
       if w1 + w2 = 0 then none else some (weightedAvg v1 w1 v2 w2) := by
-  simp only [KMath.weighted_average, div?, weightedAvg]
+  k_defs [KMath.weighted_average, weightedAvg]
+  k_solve
 
 /-- source `weighted_average_round_up` = model `weightedAvgRoundUp` (ceiling); aborts exactly on a
     zero weight sum (the `- 1` underflows: both the weighted sum and the weight sum are 0) -/
 theorem weighted_average_round_up_eq (v1 w1 v2 w2 : Nat) :
     KMath.weighted_average_round_up v1 w1 v2 w2 =
       if w1 + w2 = 0 then none else some (weightedAvgRoundUp v1 w1 v2 w2) := by
-  simp only [KMath.weighted_average_round_up, sub?, div?, weightedAvgRoundUp, ceilDiv,
-    Option.bind_eq_bind]
-  by_cases h : w1 + w2 = 0
-  · have h1 : w1 = 0 := by omega
-    have h2 : w2 = 0 := by omega
-    subst h1 h2
-    simp
-  · have a1 : 1 ≤ v1 * w1 + v2 * w2 + (w1 + w2) := by omega
-    simp only [if_pos a1, if_neg h, Option.bind_some]
+  k_defs [KMath.weighted_average_round_up, weightedAvgRoundUp, ceilDiv]
+  k_solve
 
 /-- source `safe_sub` is truncated subtraction (`Nat` subtraction) and never aborts -/
 theorem safe_sub_eq (a b : Nat) : KMath.safe_sub a b = some (a - b) := by
-  simp only [KMath.safe_sub, sub?, Option.pure_def, gt_iff_lt]
-  by_cases h : b < a
-  · rw [if_pos h, if_pos (by omega)]
-  · rw [if_neg h]
-    have : a - b = 0 := by omega
-    rw [this]
+  k_defs [KMath.safe_sub]
+  k_solve
 
 /-- the ceiling average is the floor average or one more (rounding direction of the two source
     functions differs by at most one unit) -/
